@@ -348,6 +348,32 @@ Inductive rrun : rstate -> list op -> list out -> rstate -> Prop :=
 | rr_nil r r' : same r r' -> rrun r [] [] r'
 | rr_cons r o x r1 ops xs r2 : rstep r o r1 x -> rrun r1 ops xs r2 -> rrun r (o :: ops) (x :: xs) r2.
 
+(* ---- the simulation relation between the list-based model and the reference map ---- *)
+Section Simulation.
+  Variable H : Type.
+  Variable hash : pwd -> N -> pepper -> H.
+
+  (* uids are unique in the stored list *)
+  Definition wf (db : list (user H)) : Prop := NoDup (map uid db).
+
+  (* a stored user and a reference entry: same session, and the stored hash is a hash of the entry's password under the
+     entry's pepper (for some salt) *)
+  Definition urel (x : user H) (e : rentry) : Prop :=
+    e_sess e = session x /\ exists salt, phash x = hash (e_pw e) salt (e_pep e).
+
+  Definition Rmap (db : list (user H)) (r : rstate) : Prop :=
+    forall u, match get_user_by_uid H db u with
+              | None => r_map r u = None
+              | Some x => exists e, r_map r u = Some e /\ urel x e
+              end.
+
+  Definition R (s : state H) (r : rstate) : Prop := cfg s = r_cfg r /\ Rmap (users s) r.
+End Simulation.
+
+(* no token is held by two users *)
+Definition tok_unique (r : rstate) : Prop :=
+  forall t u x u' x', holder r t u x -> holder r t u' x' -> u = u'.
+
 (* ---- what the environment supplies along a history ---- *)
 Definition op_fresh_tok (o : op) : list N :=
   match o with
@@ -444,6 +470,15 @@ Definition verdict (o : op) (st : option (N * N)) (now : N) : out :=
   match st with
   | Some (u, x) => if now <? x then accept_out o u else reject_out o
   | None => reject_out o
+  end.
+
+(* operations that can change what token t (owned by u) stands for; every other operation leaves it alone *)
+Definition touches (t u : N) (o : op) : Prop :=
+  match o with
+  | CreateSession u' _ _ tok | CreateSessionLt u' _ _ _ tok => u' = u \/ tok = t
+  | Refresh t' _ _ | InvalidateSession t' => t' = t
+  | InvalidateUser u' | RemoveUser u' => u' = u
+  | _ => False
   end.
 
 (* tokens handed out by successful create_session calls, in order *)
